@@ -53,8 +53,9 @@ func c01bGen(t *rapid.T) c01bCase {
 		for i, r := range c.G.Rules {
 			if len(r.R) >= 2 && rapid.IntRange(0, 3).Draw(t, "mid") == 0 {
 				c.MidRule[i] = rapid.IntRange(1, len(r.R)-1).Draw(t, "midpos")
-			} else if len(r.R) >= 1 && rapid.IntRange(0, 3).Draw(t, "mark") == 0 {
-				c.Markers[i] = rapid.IntRange(0, len(r.R)-1).Draw(t, "markpos")
+			} else if rapid.IntRange(0, 3).Draw(t, "mark") == 0 {
+				// also in empty rules (`A: .mark ;` stays nullable) and at the very end of a rule
+				c.Markers[i] = rapid.IntRange(0, len(r.R)).Draw(t, "markpos")
 			}
 		}
 	}
